@@ -19,7 +19,9 @@ CONSTANTS ALLSETUPS, \* FALSE: the server-side set-up only with a few leftover s
           TAILS      \* tail kinds for the size-limit family
 
 S2(a, ab, b, bb) == [msgs |-> <<a, b>>, be |-> <<ab, bb>>]
-StreamsQuick == {S2("sig0", FALSE, "call1", FALSE), S2("sig2", TRUE, "sigs", FALSE)}
+\* unk1: a message of a type this version does not know, carrying one fd - skipped with its fd (only without handshake
+\* leftovers: what becomes of leftover fds of a skipped message is not specified here)
+StreamsQuick == {S2("sig0", FALSE, "call1", FALSE), S2("sig2", TRUE, "sigs", FALSE), S2("unk1", FALSE, "call1", FALSE)}
 StreamsThorough == StreamsQuick \cup {S2("call1", FALSE, "sig2", TRUE), S2("call1", TRUE, "call1", TRUE), S2("sigs", FALSE, "sig2", FALSE), S2("sig0", FALSE, "sig0", TRUE)}
 \* (limit_pad*: 16 + fields + body is within the limit, the total with the padding before the body is 1 / 7 bytes above)
 TailsAll == {"big_body_le", "big_body_be", "big_fields", "max_u32", "limit_plus1", "limit_plus1_be", "limit_pad1", "limit_pad7_be"}
@@ -38,7 +40,8 @@ Setups(P) == {[via |-> "auth", left |-> <<0, "0">>]}
 MainBases ==
   UNION {{[msgs |-> s.msgs, be |-> s.be, left |-> su.left, via |-> su.via,
            fdpos |-> fp, tail |-> "none", eof |-> FALSE, fam |-> "main"]
-          : su \in Setups(Pos(Len(s.msgs))), fp \in {"first", "body"}}
+          : su \in {x \in Setups(Pos(Len(s.msgs))) : "unk1" \notin {s.msgs[j] : j \in 1..Len(s.msgs)} \/ x.left = <<0, "0">>},
+            fp \in {"first", "body"}}
          : s \in STREAMS}
 
 \* size-limit family: zero or one valid message, then a fixed header declaring too much (or exactly the
